@@ -39,7 +39,7 @@ Lemma scmp_unknown_set_type_then_read_out_of_bounds :
 Proof. vm_compute. reflexivity. Qed.
 
 (** The two safe setters that are NOT layout preserving (excluded from
-    safe_setters_preserve_layout_partial) -- deliberate in the code, no finding: they rewrite a
+    safe_setters_preserve_layout) -- deliberate in the code, no finding: they rewrite a
     field the constructor checks, but no accessor derives an extent from it. *)
 (* ScionHeaderView::set_version(1): the bytes would no longer be accepted (UnsupportedVersion),
    every accessor of the existing view still stays inside it *)
